@@ -463,6 +463,46 @@ def run(ctx):
                    "backslash and the quote escaped, so that no value can end its constant - how a plain '..' constant reads a backslash depends on standard_conforming_strings, which the same client chooses", floor=2)
     from c12 import quoting_clauses
     quoting_clauses(ctx, r14, F)
+    # ---------------- R16 decoder loops make progress
+    # the synchronous decoders of client bytes run on a worker thread shared with other clients' tasks, before authentication in the case of the startup packet: a loop in
+    # them that can go round without taking anything from its input (or stepping a counter) never ends once it is entered in that state - the worker is gone, its timers and
+    # tasks with it, and what the loop appends per round grows until the process is killed. A panic on a short packet ends the sender's task; a loop that "guards" the
+    # read and then goes round does not (round 11)
+    r16 = ctx.rule("C11-R16", "every loop of the synchronous decoders of client bytes (pgcat::messages, BytesMutReader, infer_shard_from_bind) takes something from its input or steps a counter on every round", floor=10)
+    TAKES = r"bytes::buf::buf_impl::Buf::(get_|advance|copy_to)|(::|>::)next(_key|_value|_back)?$|read_string$|split_to$|split_off$|::read_(u8|i32|i16|exact)$|Vec<.*>::(pop|remove|drain)$|truncate$"
+    n_loops = 0
+    for n_, b_ in sorted(F.bodies.items()):
+        if n_.startswith("bin:") or not re.search(r"^<?pgcat::messages::|^pgcat::query_router::QueryRouter::infer_shard_from_bind$|BytesMutReader", n_):
+            continue
+        if any(blk["term"]["k"] == "yield" for blk in b_.blocks):
+            continue    # async helpers: their loops are the poll loops of awaits
+        succ_ = b_.succ("n")
+        for hd in loop_headers(b_):
+            L = natural_loop(b_, hd)
+            n_loops += 1
+            prog = {c.block for c in b_.calls() if c.block in L and re.search(TAKES, c.name)}
+            for blk, i, st_ in b_.assigns():
+                if blk in L and st_["rv"]["k"] == "bin" and st_["rv"]["op"] in ("Add", "Sub", "AddWithOverflow", "SubWithOverflow", "AddUnchecked", "SubUnchecked"):
+                    prog.add(blk)
+            free = False
+            seen_ = set()
+            todo = [x for x in succ_[hd] if x in L and x not in prog] if hd not in prog else []
+            while todo:
+                x = todo.pop()
+                if x == hd:
+                    free = True
+                    break
+                if x in seen_:
+                    continue
+                seen_.add(x)
+                todo.extend(y for y in succ_[x] if y in L and y not in prog)
+            short = re.sub(r"^<?pgcat::messages::", "", n_)[:60]
+            r16.check(not free, "round-takes-input:%s@%d" % (short, len([h2 for h2 in loop_headers(b_) if h2 <= hd])),
+                      "every round of the loop takes from the input / steps a counter (%s)" % sorted({c.name.split("::")[-1] for c in b_.calls() if c.block in prog})[:3],
+                      "a round of this loop can complete without reading from the buffer or stepping a counter (the read is skipped on one branch and the loop goes on): with a packet that ends inside the element being read - "
+                      "17 bytes of startup packet, `user\\0bob` without the final NUL, from an unauthenticated peer - the condition never changes: the worker thread spins for ever, appending a byte per round until the process is out of memory",
+                      "%s loop at bb%d" % (n_, hd))
+    r16.check(n_loops >= 10, "decoder-loops-found", "%d loops in the synchronous decoders" % n_loops, "only %d decoder loops found" % n_loops)
     inv = ctx.rule("C11-INV", "inventory of panic-capable operations on data read from the client in the protocol entry functions (a panic here only ends the sender's task)", armed=False)
     tot = 0
     for fn in ENTRY_FNS:
